@@ -165,12 +165,15 @@ let spec_searches (c : case) =
           pr "SPECLEFT %d%s\n" j (show_triples (M.spec_lml pvs hn))
         else
           pr "SPECLEFT %d%s\n" j (show_triples (M.spec_lmf pvs hn))) c.hays;
-    let eff = if kind = 2 then M.effective pvs else pvs in
-    (* states are counted in the automaton's own label alphabet: bytes, or characters for cw *)
-    let eff = if c.var = "cw" then
-        List.map (fun (p, v) -> ((match M.chars_of p with Some cs -> cs | None -> p), v)) eff
-      else eff in
-    pr "SPECSTATES %d\n" (1 + List.length (M.distinct_nonempty_prefixes eff))
+    (* 'N' (huge pattern sets: implementation + specification only): the quadratic prefix count is skipped *)
+    if not (String.contains c.ops 'N') then begin
+      let eff = if kind = 2 then M.effective pvs else pvs in
+      (* states are counted in the automaton's own label alphabet: bytes, or characters for cw *)
+      let eff = if c.var = "cw" then
+          List.map (fun (p, v) -> ((match M.chars_of p with Some cs -> cs | None -> p), v)) eff
+        else eff in
+      pr "SPECSTATES %d\n" (1 + List.length (M.distinct_nonempty_prefixes eff))
+    end
 
 (* ---- byte-wise ---- *)
 let bw_searches (a : M.z M.bw_automaton) (c : case) pre =
@@ -529,10 +532,14 @@ let () =
       if c.var = "cli" then
         (try run_cli c with Stack_overflow -> pr "!stackoverflow\n")
       else begin
-        if not spec_only then
+        (* ops letter 'N': the case is too large for the model's list-based queues and tables
+           (quadratic); only the specification is evaluated, the oracles compare it with the
+           implementation, and the correspondence skips the case *)
+        let huge = String.contains c.ops 'N' in
+        if not spec_only && not huge then
           (try if c.var = "bw" then run_bw c else run_cw c
            with Stack_overflow -> pr "!stackoverflow\n");
-        (try spec_build c; if String.contains c.ops 'S' then spec_searches c
+        (try (if not huge then spec_build c); if String.contains c.ops 'S' then spec_searches c
          with Stack_overflow -> pr "SPEC!stackoverflow\n")
       end;
       pr "END %s\n" c.id;
